@@ -66,8 +66,14 @@ where
 			// string from a &str reference, which probably explains the
 			// difference.
 			let mut de = serde_json::Deserializer::from_reader(BufReader::new(r));
-			while de.end().is_err() {
-				output.transcode_from(&mut de)?;
+			loop {
+				match de.end() {
+					Ok(()) => break,
+					// A failing reader is not "more input": report its error
+					// rather than whatever the output makes of a missing value.
+					Err(err) if err.is_io() => return Err(err.into()),
+					Err(_) => output.transcode_from(&mut de)?,
+				}
 			}
 		}
 	}
